@@ -48,10 +48,11 @@ class B:
 
 
 class RandomGen:
-    def __init__(self, rnd, gen=False, maxd=3):
+    def __init__(self, rnd, gen=False, maxd=3, focus=None):
         self.rnd = rnd
         self.b = B(gen)
         self.maxd = maxd
+        self.focus = focus        # "abrupt": generator bodies dominated by try/finally around yield / yield*
 
     def stmts(self, d, ctx, maxn=3):
         return [self.stmt(d, ctx) for _ in range(self.rnd.randint(0, maxn))]
@@ -76,6 +77,8 @@ class RandomGen:
             choices += ['try', 'try', 'try', 'loop', 'forof', 'forof', 'label', 'block', 'if', 'switch', 'consume', 'destr']
             if b.gen:
                 choices += ['ystar']
+                if self.focus == 'abrupt':
+                    choices += ['ystar', 'ystar', 'try', 'try', 'try']
         c = r.choice(choices)
         if c == 'log':
             return b.log()
@@ -104,7 +107,7 @@ class RandomGen:
         if c == 'try':
             b.tryid += 1
             t = b.new('try', n=b.tryid)
-            kind = r.choice(['c', 'f', 'cf'])
+            kind = r.choice(['c', 'f', 'cf'] + (['f', 'f', 'cf'] if self.focus == 'abrupt' else []))
             a = self.block(d - 1, ctx)
             bb = self.block(d - 1, ctx) if 'c' in kind else 0
             cc = self.block(d - 1, ctx) if 'f' in kind else 0
@@ -154,13 +157,14 @@ class RandomGen:
         return w
 
 
-def random_program(pid, rnd, gen=False, maxd=3):
-    g = RandomGen(rnd, gen, maxd)
+def random_program(pid, rnd, gen=False, maxd=3, focus=None):
+    g = RandomGen(rnd, gen, maxd, focus)
     root = g.b.block(g.stmts(maxd, dict(inloop=False, insw=False, labels=[]), 4))
     ops = []
     if gen:
-        ops = [dict(op=rnd.choice(['next', 'next', 'next', 'throw', 'return']), v=rnd.randint(1, 9), ctx=rnd.choice([0, 0, 1, 2, 3]))
-               for _ in range(rnd.randint(1, 6))]
+        menu = ['next', 'next', 'next', 'throw', 'return'] if focus != 'abrupt' else ['next', 'next', 'throw', 'return', 'return']
+        ops = [dict(op=rnd.choice(menu), v=rnd.randint(1, 9), ctx=rnd.choice([0, 0, 1, 2, 3]))
+               for _ in range(rnd.randint(1, 6) if focus != 'abrupt' else rnd.randint(2, 6))]
     return dict(id=pid, root=root, nodes=g.b.nodes, gen=1 if gen else 0, ops=ops)
 
 
